@@ -224,6 +224,8 @@ func cmdCheck(args []string) int {
 	}
 	if res.undecided != "" && res.exit != 1 {
 		fmt.Printf("UNDECIDED property=%s reason=%s\n", prop.ID, res.undecided)
+	} else if res.undecided != "" {
+		fmt.Printf("  note: evaluation stopped early (%s)\n", res.undecided)
 	}
 	if !*noEv {
 		writeEvidence(vdir, prop, ctx, res, *tier, seed, prog, time.Since(start).Seconds(), selfTest)
